@@ -110,6 +110,22 @@ def frame_boundary(env):
                     ok = got.get('sent') is True and got.get('received') is False
                 if not ok:
                     fails.append(dict(scenario=scen, args=a, expected=dict(outcome=want), observed=got))
+    # the limit applies to the HEADER frame as well: an oversized header is refused by the sender; with the limit on the receiver only, on arrival
+    for n in (64, 1000):
+        big = 'x' * (n + 10)
+        for (sender, receiver, want) in [(n, None, 'sender-refuses'), (n, n, 'sender-refuses'), (None, n, 'receiver-refuses'), (None, None, 'delivered')]:
+            for (scen, a) in (('roundtrip_request', dict(route='/' + big, body_len=1)), ('roundtrip_response', dict(status=200, headers={'k': big}, body_len=1))):
+                a = dict(a, sender=dict(max_frame_size=sender), receiver=dict(max_frame_size=receiver))
+                got = _run(scen, a, env)
+                cases += 1
+                if want == 'delivered':
+                    ok = got.get('sent') and got.get('received') and got.get('body_intact')
+                elif want == 'sender-refuses':
+                    ok = got.get('sent') is False
+                else:
+                    ok = got.get('sent') is True and got.get('received') is False
+                if not ok:
+                    fails.append(dict(scenario=scen, args=dict(a, note='oversized HEADER frame (%d bytes over a limit of %s)' % (n + 10, n)), expected=dict(outcome=want), observed=got))
     return dict(name='frame_boundary', validates='tokio-util LengthDelimitedCodec boundary (strict >) through the real codec built by network_message_frame_codec',
                 cases=cases, failed=fails, ok=not fails, props=['C15'],
                 clause='anything up to and including the configured maximum is delivered intact; anything above is refused by the sender before transmission and by the receiver on arrival')
